@@ -547,18 +547,50 @@ def _r3(run, m15):
             raise AnalysisError('anchored function vanished: %s' % n)
         run.functions += 1
         K = 'cherab.openadas.parse.adf15|%s|' % n
-        typemap = {}
-        for iff in ast.walk(fn):
-            if isinstance(iff, ast.If) and isinstance(iff.test, ast.Compare) and norm(iff.test.left) == 'rate_type_adas' and isinstance(iff.test.comparators[0], ast.Constant):
-                for s in iff.body:
-                    if isinstance(s, ast.Assign) and norm(s.targets[0]) == 'rate_type' and isinstance(s.value, ast.Constant):
-                        typemap[iff.test.comparators[0].value] = s.value.value
-        cfg = sorted(norm(s).replace(' ', '') for s in ast.walk(fn) if isinstance(s, ast.Assign) and norm(s.targets[0]).startswith('config['))
-        defs = {}
-        for t, v, st in stores(fn):
-            if isinstance(st, ast.Assign) and isinstance(t, ast.Name):
-                defs.setdefault(t.id, []).append(norm(v))
-        summ[n] = dict(typemap=typemap, cfg=cfg, wavelength=defs.get('wavelength'), block=defs.get('block_num'), rta=defs.get('rate_type_adas'))
+        from ..inline import resolver
+        mnames = tuple(t.id for t, v, s2 in stores(fn) if isinstance(t, ast.Name) and isinstance(v, ast.Call) and dotted(v.func) in ('re.match', 're.search'))
+        res = resolver(fn, stop=mnames)
+        R = lambda e: re.sub(r'\b(%s)\b' % '|'.join(mnames or ('match',)), 'match', norm(res(e)).replace(' ', ''))
+        # the two output tables, whatever the locals are called: config[<type>][element][charge][(upper, lower)] = <block>, config['wavelength'][...] = <wl>
+        typemap, cfg_ok, wl_txt, blk_txt, rta_txt = {}, [], None, None, None
+        for st_ in ast.walk(fn):
+            if not (isinstance(st_, ast.Assign) and isinstance(st_.targets[0], ast.Subscript)):
+                continue
+            chain, t_ = [], st_.targets[0]
+            while isinstance(t_, ast.Subscript):
+                chain.append(t_.slice)
+                t_ = t_.value
+            chain.reverse()
+            if not (isinstance(t_, ast.Name) and t_.id == 'config' and len(chain) == 4):
+                continue
+            lv = R(chain[3])
+            if isinstance(chain[0], ast.Constant) and chain[0].value == 'wavelength':
+                wl_txt = R(st_.value)
+                cfg_ok.append(('wavelength', norm(chain[1]), norm(chain[2]), lv))
+            else:
+                blk_txt = R(st_.value)
+                cfg_ok.append(('type', norm(chain[1]), norm(chain[2]), lv))
+                tv = chain[0]
+                # the type key: constants chosen by tests on the ADAS type, or a lookup in a literal dict
+                tr = res(tv)
+                if isinstance(tr, ast.Subscript) and isinstance(tr.value, ast.Name):
+                    lit = m15.assigns.get(tr.value.id)
+                    if lit is None:
+                        lits = [v for t2, v, s2 in stores(fn) if isinstance(t2, ast.Name) and t2.id == tr.value.id]
+                        lit = lits[0] if len(lits) == 1 else None
+                    if isinstance(lit, ast.Dict) and all(isinstance(k, ast.Constant) and isinstance(v, ast.Constant) for k, v in zip(lit.keys, lit.values)):
+                        typemap = {k.value: v.value for k, v in zip(lit.keys, lit.values)}
+                        rta_txt = R(tr.slice)
+                elif isinstance(tv, ast.Name):
+                    for iff in ast.walk(fn):
+                        if isinstance(iff, ast.If) and isinstance(iff.test, ast.Compare) and len(iff.test.ops) == 1 and isinstance(iff.test.ops[0], ast.Eq) \
+                                and isinstance(iff.test.comparators[0], ast.Constant):
+                            for s_ in iff.body:
+                                if isinstance(s_, ast.Assign) and norm(s_.targets[0]) == tv.id and isinstance(s_.value, ast.Constant):
+                                    typemap[iff.test.comparators[0].value] = s_.value.value
+                                    rta_txt = R(iff.test.left)
+        gm = lambda k: 'match.groups()[%d]' % k
+        summ[n] = dict(typemap=typemap, cfg=sorted(cfg_ok), wavelength=wl_txt, block=blk_txt, rta=rta_txt)
         # regex groups
         pats = {t.id: v.value for t, v, st in stores(fn) if isinstance(t, ast.Name) and isinstance(v, ast.Constant) and isinstance(v.value, str) and t.id.endswith('_match')}
         for c in [c for c in ast.walk(fn) if isinstance(c, ast.Call) and dotted(c.func) == 're.match' and isinstance(c.args[0], ast.Name) and c.args[0].id in pats]:
@@ -592,13 +624,14 @@ def _r3(run, m15):
         problems = []
         if s['typemap'] != {'EXCIT': 'excitation', 'RECOM': 'recombination', 'CHEXC': 'thermalcx'}:
             problems.append('block type map %s' % s['typemap'])
-        if s['wavelength'] != ['float(match.groups()[1]) / 10']:
+        if s['wavelength'] not in ('float(match.groups()[1])/10', 'float(match.group(2))/10', 'AngstromToNm.to(float(match.groups()[1]))'):
             problems.append('wavelength %s (documented: Angstrom / 10)' % s['wavelength'])
-        if s['block'] != ['int(match.groups()[0])']:
+        if s['block'] not in ('int(match.groups()[0])', 'int(match.group(1))'):
             problems.append('block number %s' % s['block'])
-        if s['rta'] != ['match.groups()[4]']:
+        if s['rta'] not in ('match.groups()[4]', 'match.group(5)'):
             problems.append('block type from %s' % s['rta'])
-        if s['cfg'] != ["config['wavelength'][element][charge][upper_level,lower_level]=wavelength", 'config[rate_type][element][charge][upper_level,lower_level]=block_num']:
+        lv_ok = all(c_[3] in ('(int(match.groups()[2]),int(match.groups()[3]))', '(upper_level,lower_level)') or 'groups()[2]' in c_[3] or c_[3] == ref['cfg'][0][3] for c_ in s['cfg'])
+        if sorted(c_[0] for c_ in s['cfg']) != ['type', 'wavelength'] or any(c_[1:3] != ('element', 'charge') for c_ in s['cfg']) or len({c_[3] for c_ in s['cfg']}) != 1:
             problems.append('output tables %s' % s['cfg'])
         if problems:
             run.fail('C08-R3', 'cherab.openadas.parse.adf15|%s|agreement' % n, m15.relpath, m15.functions[n].lineno, '%s deviates from its siblings: %s' % (n, '; '.join(problems)))
@@ -925,41 +958,74 @@ def _r5(run, mods):
     if pb is None:
         raise AnalysisError('anchored function vanished: _parse_block')
 
-    def kind(nm):
-        n = nm.lower().strip("'")
-        if 'ener' in n or 'beam' in n or n.startswith('eb'):
-            return 'E'
-        if 'tiev' in n or n.startswith('ti') or n == 'nti':
-            return 'T'
-        if 'dens' in n or n.startswith(('ni', 'ndi')):
-            return 'N'
-        if 'ze' in n:
-            return 'Z'
-        if 'bmag' in n or n in ('nb', 'bref', 'b'):
-            return 'B'
-        return '?'
-    seqs = {}
+    # the block is a fixed sequence of reads: #1 qefref, #2 the five reference values (E, T, N, Zeff, B), #3 the five point counts in
+    # the same order, then for each scan its grid (#4, #6, ...) and its values (#5, #7, ...), each cut to the count of its own scan
+    reads = {}
+
+    def val(e):
+        if isinstance(e, ast.Call) and dotted(e.func) == 'readvalues':
+            reads['n'] = reads.get('n', 0) + 1
+            return ('read', reads['n'])
+        if isinstance(e, ast.Name):
+            return env.get(e.id)
+        if isinstance(e, ast.Subscript):
+            b0 = val(e.value)
+            if b0 is None:
+                return None
+            if isinstance(e.slice, ast.Constant) and isinstance(e.slice.value, int) and b0[0] == 'read':
+                return ('comp', b0[1], e.slice.value)
+            if isinstance(e.slice, ast.Slice) and e.slice.step is None and (e.slice.lower is None or norm(e.slice.lower) == '0') and b0[0] == 'read':
+                return ('slice', b0[1], val(e.slice.upper))
+            return None
+        if isinstance(e, ast.Tuple):
+            return ('tuple', [val(x) for x in e.elts])
+        if isinstance(e, ast.Call) and dotted(e.func) in ('int', 'float') and len(e.args) == 1:
+            return val(e.args[0])
+        return None
+    env, stored = {}, {}
+    interp_ok = True
     for st in pb.body:
-        if isinstance(st, ast.Assign) and isinstance(st.targets[0], ast.Tuple) and len(st.targets[0].elts) == 5:
-            names = [e.id for e in st.targets[0].elts]
-            seqs['refs' if any('ref' in x for x in names) else 'counts'] = [kind(x) for x in names]
-    scans = []
-    for st in pb.body:
-        if isinstance(st, ast.Assign) and isinstance(st.targets[0], ast.Subscript) and norm(st.targets[0].value) == 'rate' and isinstance(st.value, ast.Subscript) \
-                and isinstance(st.value.slice, ast.Slice):
-            key = st.targets[0].slice.value
-            cnt = norm(st.value.slice.upper)
-            scans.append((key, cnt))
-    scan_kinds = [kind(k) for k, c in scans if not k.startswith('Q')]
-    count_used = [(kind(k), kind(c)) for k, c in scans]
-    ok = seqs.get('refs') == ['E', 'T', 'N', 'Z', 'B'] and seqs.get('counts') == ['E', 'T', 'N', 'Z', 'B'] and scan_kinds == ['E', 'T', 'N', 'Z', 'B'] \
-        and all(a == b for a, b in count_used) and len(scans) == 10
-    if ok:
-        run.ok('C08-R5', 'ADF12 scan order', 'reference values, point counts and scan blocks all in the order E, T, N, Zeff, B; each scan cut to its own count')
-    else:
+        if isinstance(st, ast.Assign) and len(st.targets) == 1:
+            t = st.targets[0]
+            if isinstance(t, ast.Subscript) and isinstance(t.slice, ast.Constant) and isinstance(t.slice.value, str) and isinstance(t.value, ast.Name):
+                stored[t.slice.value] = val(st.value)
+            elif isinstance(t, ast.Name):
+                env[t.id] = val(st.value)
+            elif isinstance(t, ast.Tuple) and all(isinstance(x, ast.Name) for x in t.elts):
+                v = val(st.value)
+                if v is not None and v[0] == 'read':
+                    for i_, x in enumerate(t.elts):
+                        env[x.id] = ('comp', v[1], i_)
+                elif v is not None and v[0] == 'tuple' and len(v[1]) == len(t.elts):
+                    for x, vv in zip(t.elts, v[1]):
+                        env[x.id] = vv
+                else:
+                    for x in t.elts:
+                        env[x.id] = None
+    want = {'QEFREF': ('comp', 1, 0)}
+    for i_, k in enumerate(('EBREF', 'TIREF', 'NIREF', 'ZEREF', 'BREF')):
+        want[k] = ('comp', 2, i_)
+    for i_, (g, q) in enumerate((('ENER', 'QENER'), ('TIEV', 'QTIEV'), ('DENSI', 'QDENSI'), ('ZEFF', 'QZEFF'), ('BMAG', 'QBMAG'))):
+        want[g] = ('slice', 4 + 2 * i_, ('comp', 3, i_))
+        want[q] = ('slice', 5 + 2 * i_, ('comp', 3, i_))
+    unknown = [k for k in want if stored.get(k) is None]
+    wrong = [(k, stored[k], want[k]) for k in want if stored.get(k) is not None and stored[k] != want[k]]
+
+    def show(v):
+        if v[0] == 'comp':
+            return 'value %d of read #%d' % (v[2] + 1, v[1])
+        if v[0] == 'slice':
+            return 'read #%d cut to %s' % (v[1], show(v[2]) if v[2] else '?')
+        return str(v)
+    if wrong:
+        k, got, w = wrong[0]
         run.fail('C08-R5', 'cherab.openadas.parse.adf12|_parse_block|scan-order', m12.relpath, pb.lineno,
-                 'ADF12 block: reference values %s, point counts %s, scans %s with counts %s -- the five scans are not handled in one consistent order '
-                 '(a scan would be cut or padded to another scan\'s length)' % (seqs.get('refs'), seqs.get('counts'), scan_kinds, count_used))
+                 "ADF12 block: '%s' is %s; the format has %s -- the five scans (E, T, N, Zeff, B) are not handled in one consistent order (a scan is "
+                 "cut or padded to another scan's length, or a reference value is taken from another scan)" % (k, show(got), show(w)))
+    elif unknown:
+        run.undecided('C08-R5', 'ADF12 scan order', 'cannot interpret how %s are read' % unknown[:3])
+    else:
+        run.ok('C08-R5', 'ADF12 scan order', 'reference values, point counts and scan blocks all in the order E, T, N, Zeff, B; each scan cut to its own count')
     run.floor('C08-R5', 4)
 
 
